@@ -6,7 +6,7 @@
    floats, so NaN, inf and -0.0 are just values); add is an arbitrary binary operation (np.add on the
    data dtype) — the stable sort keeps duplicates in their given order, so no algebraic law is needed. *)
 From Coq Require Import ZArith List Bool.
-From Verif Require Import Py Shape COO GCXS COOP Convert ConvertL ConvertM ConvertG ConvertP.
+From Verif Require Import Py Shape COO GCXS COOP S_convert Convert ConvertL ConvertM ConvertG ConvertP.
 Import ListNotations.
 Open Scope Z_scope.
 
@@ -115,6 +115,32 @@ Theorem change_axes_wf :
     gcxs_wfb (gcxs_change_axes (gcxs_from_coo c ca) ca') = true.
 Proof. exact change_axes_wf_proof. Qed.
 Print Assumptions change_axes_wf.
+
+(* the index dtype: _from_coo and _transpose store row numbers, column numbers and pointers by plain
+   array assignment into arrays of the dtype they choose (values that do not fit would wrap silently).
+   The capacities are built from the bound expressions extracted from the source on every run
+   (tools/sitegen/convert.py -> Gen/S_convert.v): everything stored is within the capacity, so nothing
+   wraps whatever the coordinate dtype of the operand is. *)
+Theorem gcxs_from_coo_fits :
+  forall (V : Type) (c : coo V) (ca : list Z),
+    canonical V c -> shape_ok (c_shape c) -> (2 <= length (c_shape c))%nat ->
+    caxes_okb (Z.of_nat (length (c_shape c))) ca = true ->
+    let g := gcxs_from_coo c ca in
+    let cap := from_coo_capacity (c_shape c) ca (Z.of_nat (length (c_data c))) in
+    fitsb cap (g_indices g) = true /\ fitsb cap (row_numbers (g_indptr g)) = true /\ fitsb cap (g_indptr g) = true.
+Proof. exact gcxs_from_coo_fits_proof. Qed.
+Print Assumptions gcxs_from_coo_fits.
+
+Theorem change_axes_fits :
+  forall (V : Type) (c : coo V) (ca ca' : list Z),
+    canonical V c -> shape_ok (c_shape c) -> (2 <= length (c_shape c))%nat ->
+    caxes_okb (Z.of_nat (length (c_shape c))) ca = true ->
+    caxes_okb (Z.of_nat (length (c_shape c))) ca' = true -> ca' <> ca ->
+    let g := gcxs_change_axes (gcxs_from_coo c ca) ca' in
+    let cap := transpose_capacity (c_shape c) ca' (Z.of_nat (length (c_data c))) in
+    fitsb cap (g_indices g) = true /\ fitsb cap (row_numbers (g_indptr g)) = true /\ fitsb cap (g_indptr g) = true.
+Proof. exact change_axes_fits_proof. Qed.
+Print Assumptions change_axes_fits.
 
 (* ---------------------------------------------------------------- DOK <-> COO *)
 (* DOK.from_coo then asformat("coo") (COO.from_iter on the dict) returns the same COO — except for
